@@ -9,7 +9,9 @@
    diagonal (stated per kind below). *)
 EXTENDS WireHdr, WireParams
 
-CONSTANT Large          \* the "large" byte-field length (1200 quick; 16384 crosses the 2->4 byte length varint)
+CONSTANTS Large,         \* the "large" byte-field length (1200 quick; 16384 crosses the 2->4 byte length varint)
+          Dense          \* TRUE: full product of the boundary values for three varint fields; FALSE: all PAIRS of values
+                         \* (every triple with at least two equal components: 176 of 512)
 
 B8 == Boundary
 U32MAX == <<0, 0, 0, 0, 255, 255, 255, 255>>
@@ -20,6 +22,7 @@ Ascii(n) == [i \in 1..n |-> 32 + ((i + n) % 90)]
 Lens == {0, 1, 63, 64, Large}
 SmallLens == {0, 1, 63, 64}
 F(t, fs) == [c |-> "frame", t |-> t, x |-> fs]
+Tri(S) == { tr \in S \X S \X S : Dense \/ tr[1] = tr[2] \/ tr[2] = tr[3] \/ tr[1] = tr[3] }
 
 Addr4 == { <<0, 0, 0, 0, 0, 0>>, <<255, 255, 255, 255, 255, 255>>, <<17, 81, 192, 168, 1, 20>> }      \* port(2) ip(4)
 Addr6 == { Zeros(18), [i \in 1..18 |-> 255], <<1, 187>> \o [i \in 1..16 |-> (i * 17) % 256] }
@@ -29,14 +32,14 @@ Tok16 == [i \in 1..16 |-> 160 + i]
 
 AckVals ==
     \* full product of largest / delay / first range, no further range
-    { F(2, <<a, b, c>>) : a \in B8, b \in B8, c \in B8 }
+    { F(2, <<tr[1], tr[2], tr[3]>>) : tr \in Tri(B8) }
     \* one (gap, len) range at every boundary pair
     \cup { F(2, <<V8(100), V8(5), V8(3) \o g \o l>>) : g \in B8, l \in B8 }
     \* two ranges, diagonal; 64 ranges (the count needs a 2-byte varint)
     \cup { F(2, <<x, x, x \o x \o x \o x \o x>>) : x \in B8 }
     \cup { F(2, <<V8(1000), V8(0), V8(1) \o Cat([i \in 1..128 |-> V8(i % 3)])>>) }
     \* ECN counts: full product, plus everything at the same boundary
-    \cup { F(3, <<V8(7), V8(1), V8(0), a, b, c>>) : a \in B8, b \in B8, c \in B8 }
+    \cup { F(3, <<V8(7), V8(1), V8(0), tr[1], tr[2], tr[3]>>) : tr \in Tri(B8) }
     \cup { F(3, <<x, x, x \o x \o x, x, x, x>>) : x \in B8 }
 
 StreamVals ==
@@ -56,7 +59,7 @@ AddrVals ==
     \* seq x tire full product on one address; NAT type and address one at a time
     UNION { { F(EXT + fam, <<s, a, t, V8(3)>>) : s \in BU32, t \in BU32, a \in {CHOOSE x \in (IF fam = 0 THEN Addr4 ELSE Addr6) : x[1] = 17 \/ x[1] = 1} }
             \cup { F(EXT + fam, <<V8(1), a, V8(2), V8(nat)>>) : a \in (IF fam = 0 THEN Addr4 ELSE Addr6), nat \in 0..5 }
-            \cup { F(EXT + 2 + fam, <<l, r, a, t, V8(4)>>) : l \in BU32, r \in BU32, t \in BU32, a \in {CHOOSE x \in (IF fam = 0 THEN Addr4 ELSE Addr6) : x[1] = 17 \/ x[1] = 1} }
+            \cup { F(EXT + 2 + fam, <<tr[1], tr[2], a, tr[3], V8(4)>>) : tr \in Tri(BU32), a \in {CHOOSE x \in (IF fam = 0 THEN Addr4 ELSE Addr6) : x[1] = 17 \/ x[1] = 1} }
             \cup { F(EXT + 2 + fam, <<V8(1), V8(2), a, V8(3), V8(nat)>>) : a \in (IF fam = 0 THEN Addr4 ELSE Addr6), nat \in 0..5 }
           : fam \in {0, 1} }
 
@@ -65,8 +68,8 @@ FrameVals ==
     \cup { F(t, <<a>>) : t \in {16, 20, 22, 23, 25, EXT + 4}, a \in B8 }
     \cup { F(t, <<a>>) : t \in {18, 19}, a \in {x \in B8 : x[1] < 16} \cup {MAXSTREAMS} }
     \cup { F(t, <<a, b>>) : t \in {5, 17, 21}, a \in B8, b \in B8 }
-    \cup { F(4, <<a, b, c>>) : a \in B8, b \in B8, c \in B8 }
-    \cup { F(t, <<a, b, c>>) : t \in {EXT + 5, EXT + 6}, a \in BU32, b \in BU32, c \in BU32 }
+    \cup { F(4, <<tr[1], tr[2], tr[3]>>) : tr \in Tri(B8) }
+    \cup { F(t, <<tr[1], tr[2], tr[3]>>) : t \in {EXT + 5, EXT + 6}, tr \in Tri(BU32) }
     \cup AckVals
     \cup { fr \in { F(6, <<off, Data(n)>>) : off \in B8, n \in Lens } : FieldsValid(6, fr.x) }
     \cup { F(7, <<Data(n)>>) : n \in Lens }
@@ -115,7 +118,7 @@ PrimVals ==
 E(id, val) == [id |-> id, val |-> val]
 Pa(n) == <<10, 0, 0, 1, 17, 81>> \o [i \in 1..16 |-> i] \o <<1, 187>> \o <<n>> \o Cid(n) \o Tok16
 ValsOf(id) ==
-    CASE PType(id) \in {"varint", "duration"} -> { x \in B8 \cup {V8(2), V8(20), V8(1200), V8(65527)} : InBounds(id, x) }
+    CASE PType(id) \in {"varint", "duration"} -> { x \in B8 \cup {V8(2), V8(20), V8(1200), V8(65527), <<16, 0, 0, 0, 0, 0, 0, 0>>} : InBounds(id, x) }
       [] PType(id) = "bool" -> { <<>> }
       [] PType(id) = "token" -> { Tok16 }
       [] PType(id) = "cid" -> { Cid(n) : n \in CidLens }
@@ -166,10 +169,10 @@ PayloadStringsOf(first, L) == { h \o s : h \in { g \in PayloadHeads : g[1] = fir
 PayloadStrings(L) == UNION { PayloadStringsOf(fb, L) : fb \in FirstBytes } \cup { <<>> }
 
 \* truncations and single-byte substitutions of a valid encoding.  Positions: every truncation point; substitutions
-\* at the first 24 and the last 2 positions (the structure of every layout lies in its head; the tail is data)
-Posns(n) == { i \in 1..n : i <= 24 \/ i > n - 2 }
-Mutations(b, A) ==
+\* at the first `head` (24; 12 in the quick tier) and the last 2 positions (the structure of every layout lies in its head; the tail is data)
+Posns(n, head) == { i \in 1..n : i <= head \/ i > n - 2 }
+Mutations(b, A, head) ==
     { Take(b, n) : n \in 0..(Len(b) - 1) }
-    \cup { [b EXCEPT ![i] = a] : i \in Posns(Len(b)), a \in A }
+    \cup { [b EXCEPT ![i] = a] : i \in Posns(Len(b), head), a \in A }
     \cup { b \o <<0>>, b \o <<255>> }
 =============================================================================
